@@ -78,10 +78,17 @@ func TestC12Shutdown(t *testing.T) {
 			}
 		}
 
+		deaf := false
 		switch state {
 		case "never-connected":
 		case "dialing":
-			h.ScriptDial(sim.DialOutcome{Kind: sim.DialPark})
+			// (a Dialer which does not notice the end of its context in time
+			// hands out a connection after the client was closed)
+			deaf = rapid.Bool().Draw(rt, "dialerIgnoresContext")
+			h.ScriptDial(sim.DialOutcome{Kind: sim.DialPark, Deaf: deaf})
+			if deaf {
+				h.label("dialer-returns-a-connection-after-close")
+			}
 			h.App.Step()
 			h.MustPoll("dial parked", func() bool { return h.DialParked() > 0 })
 		case "awaiting-connack":
@@ -193,6 +200,13 @@ func TestC12Shutdown(t *testing.T) {
 			if cl.kind == "disconnect-later" {
 				close(cl.quit)
 			}
+		}
+		// (the connection of a Dialer which was past the point of no return
+		// when the context ended arrives now: Close need not beat a Dialer
+		// which ignores its context, but that connection must not leak)
+		if deaf {
+			h.Act("the Dialer returns a connection although its context ended")
+			h.ReleaseDial()
 		}
 		// Close must return while writers and dials are still parked; a
 		// Disconnect without quit may wait for a writer inside Write (L10)
